@@ -66,6 +66,60 @@ CHECKS.update({
               "One corner of the 'nothing new after a timeout loss' clause fails on the pinned code and is a listed known finding."),
         design_ref="§4 C04, §3.2", note=CORE_NOTE,
         technique="TLA+ invariants + TLC incl. adversarial Forge action; monitors over observed state via TLC trace validation"),
+    "C05": dict(
+        category="exploration",
+        text=("Boundary classes come from the specifications (Frame.tla's packet classes, KcpNet's Forge classes, FecNet's arrival patterns); "
+              "at session level random byte strings of boundary lengths and structure-aware mutations of captured datagrams are injected "
+              "into live lossy traffic on listener and dialled paths for every cipher/FEC class; a panic anywhere in the library ends the "
+              "run and is the violation; queue lengths, shard sets and pool balance are sampled and judged by TLC monitors (C05_Bounds). "
+              "The raw core and the FEC decoder are fed forged/garbage input by the C04/C07 stages (C05_NoPanic, C05_DecoderBounded)."),
+        design_ref="§4 C05", note="Not coverage-guided fuzzing; 'does not panic' is observed, not modelled. Trusted: synctest, simnet, the sanitizer hooks.",
+        technique="model-derived boundary classes + seeded mutation of captured traffic; TLC monitors over sampled bounds"),
+    "C06": dict(
+        category="model_checking",
+        text=("Frame.tla transcribes the input routing of UDPSession.packetInput/kcpInput and Listener.packetInput as a function from abstract "
+              "packet classes to effect classes; TLC checks IntegrityGuards (a failed or missing integrity field leads only to drop/counter) "
+              "for every class and cipher kind. On the code, corruptions that the check is guaranteed to catch (AEAD bit flips; bursts of "
+              "<=32 bits / changed CRC applied through the reference cipher; too-short datagrams) of captured datagrams of every kind are "
+              "injected into listener (known and unknown source) and dialled session for 13 ciphers; deep digests before/after and the "
+              "counter delta are judged by the C06 monitors via TLC."),
+        design_ref="§4 C06, §3.4", note="Trusted: reference ciphers/CRC32 (independent of crypt.go), VerifDigest (verif tag), synctest quiescence (synctest.Wait).",
+        technique="TLA+ routing decision model + TLC; guaranteed-detectable corruption injection judged by TLC monitors"),
+    "C09": dict(
+        category="model_checking",
+        text=("Frame.tla (output side = Fec!EncodeOp wrapped in the cipher/FEC header arithmetic) is model-checked for SizeFieldRule, "
+              "TypeMatchesPosition, IdsDistinct, ParityCoversGroup for every cipher kind x FEC class. On the code every datagram of seeded "
+              "session runs (all ciphers/FEC/MTU/window/mode classes, loss, duplication, reordering, outages, SetMtu, OOB) is decoded at the "
+              "WriteTo boundary by a parser written from README.md with reference ciphers, CRC32 and a fresh Reed-Solomon codec; TLC judges "
+              "layout, FEC numbering (Fec.tla's id/type rule incl. skipped parity), parity = RS code of the padded size-prefixed payloads, "
+              "nonce and datagram freshness, and that the stream reassembled from the wire alone equals what was written."),
+        design_ref="§4 C09, §3.4", note="Trusted: the independent parser and reference evaluators in harness/wire and harness/refcrypt.",
+        technique="TLA+ framing model + TLC; independent wire decoder; TLC monitors over every datagram"),
+    "C10": dict(
+        category="model_checking",
+        text=("Frame.tla!LenBound (every datagram incl. parity, OOB and AEAD tag <= session MTU) and KcpCore's OutSizeOK are model-checked; "
+              "SetMtuOp follows the repaired KCP.SetMtu. On the code: SetMtu with boundary values at random points of bidirectional "
+              "transfers, OOB of maximum size and +1; the wire monitor compares every datagram with the MTU in force, the core's output "
+              "sizes are judged in the core traces (C10_OutSize)."),
+        design_ref="§4 C10", note="A genuine defect (SetMtu accepting values it cannot honour) was repaired; see known_findings.json.",
+        technique="TLA+ length arithmetic + TLC; wire-length monitor via TLC trace validation"),
+    "C15": dict(
+        category="model_checking",
+        text=("Lifecycle.tla models the goroutines/callbacks started per session and listener and what ends each; TLC checks under weak fairness "
+              "that after every order of Close calls they all terminate (ReleasedHeld). On the code every session run ends by closing client, "
+              "accepted session, listener and transport in a seeded order (half of them in mid-transfer); 12 virtual seconds later no "
+              "goroutine with a kcp-go frame may remain in the bubble; the pool sanitizer reports double Put and writes into recycled "
+              "buffers; TLC monitors decide. A leak of sessions never handed out by Accept is a listed known finding."),
+        design_ref="§4 C15", note="Trusted: synctest's bubble goroutine tracking, runtime.Stack parsing, the sanitizer (verif tag).",
+        technique="TLA+ lifecycle model + TLC (liveness); bubble leak detection + pool sanitizer judged by TLC monitors"),
+    "C19": dict(
+        category="model_checking",
+        text=("Frame.tla: OOBConsumesNoSeqid (action property), OOBNeverEntersFecOrKcp, refusal rule and LenBound for OOB are model-checked. "
+              "On the code OOB messages of boundary lengths are interleaved with Write traffic in both directions under loss; every handler "
+              "invocation must equal a message sent by that session's peer, refusal exactly for oversize/no-FEC, the FEC id sequence on the "
+              "wire must be unaffected and the stream monitors (C01/C02) must stay green on the same runs."),
+        design_ref="§4 C19", note="Trusted as C09.",
+        technique="TLA+ framing model + TLC; session runs with OOB judged by TLC monitors"),
     "C07": dict(
         category="model_checking",
         text=("Fec.tla follows fecEncoder.encode / fecDecoder.decode branch by branch (sequence ids in a word of W values, paws, shard sets, "
